@@ -195,6 +195,12 @@ pub struct Cli {
     /// `-r diff` / `-r yaml` (only together with `pretty: true`, i.e. no report is parsed)
     #[serde(default)]
     pub renderer: Option<String>,
+    /// `--verbose`
+    #[serde(default)]
+    pub verbose: bool,
+    /// `--log-level <level>` (debug, trace, info ...): what scrut logs changes nothing of its work
+    #[serde(default)]
+    pub log_level: Option<String>,
 }
 
 #[derive(Clone, Debug, PartialEq, Eq, Serialize, Deserialize)]
